@@ -5,10 +5,13 @@ import (
 
 	"github.com/consensys/gnark-crypto/ecc"
 	"github.com/consensys/gnark/frontend"
+	"github.com/consensys/gnark/frontend/cs/r1cs"
+	"github.com/consensys/gnark/frontend/cs/scs"
 	"github.com/consensys/gnark/test"
 
 	"verifharness/engine"
 	"verifharness/fw"
+	"verifharness/gadget"
 	"verifharness/inst"
 )
 
@@ -104,6 +107,15 @@ func init() {
 					}
 				}
 				cs = append(cs, fw.Case{ID: "gnark/A_testdata/k=1/fixed", Kind: "gnark", P: map[string]any{"inst": "A_testdata", "k": 1, "wrapper": "fixed"}})
+				// the whole circuit compiled with gnark's real builders and solved with the real solver
+				cs = append(cs, fw.Case{ID: "compiled/r1cs/A_testdata/k=1/fixed", Kind: "compiled", P: map[string]any{"inst": "A_testdata", "k": 1, "wrapper": "fixed", "sys": "r1cs"}})
+				if !ctx.Quick {
+					for _, sys := range []string{"r1cs", "scs"} {
+						cs = append(cs, fw.Case{ID: "compiled/" + sys + "/A_testjson/k=2/verifier", Kind: "compiled", P: map[string]any{"inst": "A_testjson", "k": 2, "wrapper": "verifier", "sys": sys}})
+						cs = append(cs, fw.Case{ID: "compiled/" + sys + "/B_epoch_4RjX/k=1/verifier", Kind: "compiled", P: map[string]any{"inst": "B_epoch_4RjX", "k": 1, "wrapper": "verifier", "sys": sys}})
+					}
+					cs = append(cs, fw.Case{ID: "compiled/scs/A_testdata/k=1/fixed", Kind: "compiled", P: map[string]any{"inst": "A_testdata", "k": 1, "wrapper": "fixed", "sys": "scs"}})
+				}
 				cs = append(cs, fw.Case{ID: "gnark-control/A_testdata/k=1", Kind: "gnarkcontrol", P: map[string]any{"inst": "A_testdata", "k": 1}})
 				cs = append(cs, fw.Case{ID: "shadowfit/A_testdata/k=1/native", Kind: "shadowfit", P: map[string]any{"inst": "A_testdata", "k": 1, "face": "native"}})
 				if !ctx.Quick {
@@ -154,6 +166,25 @@ func init() {
 					}
 					o.Inc("gnark_engine_agreements")
 					o.Sample = map[string]any{"gnark": "accept", "engine": "ACCEPT"}
+				case "compiled":
+					var nb frontend.NewBuilder = r1cs.NewBuilder
+					if c.Str("sys") == "scs" {
+						nb = scs.NewBuilder
+					}
+					ccs, err := frontend.Compile(ecc.BN254.ScalarField(), nb, mk(in.Clone()))
+					if err != nil {
+						return fw.Violate("compile_fails_on_valid_template:"+c.Str("sys"), fmt.Sprintf("case %s: %v", c.ID, trunc(err.Error(), 200)))
+					}
+					w, err := frontend.NewWitness(mk(in.Clone()), ecc.BN254.ScalarField())
+					if err != nil {
+						return fw.Inconcl("witness: " + err.Error())
+					}
+					if err := ccs.IsSolved(w, gadget.CommitOverrides(ccs)...); err != nil {
+						return fw.Violate("compiled_system_rejects_valid_proof:"+c.Str("sys")+":"+c.Str("wrapper"), fmt.Sprintf("case %s (%d constraints): %v", c.ID, ccs.GetNbConstraints(), trunc(err.Error(), 200)))
+					}
+					o.Events += ccs.GetNbConstraints()
+					o.Inc("compiled_" + c.Str("sys") + "_accepts_" + c.Str("wrapper"))
+					o.Sample = map[string]any{"system": c.Str("sys"), "constraints": ccs.GetNbConstraints(), "wrapper": c.Str("wrapper")}
 				case "gnarkcontrol":
 					t := in.Clone()
 					t.PWI.Proof.Openings.Wires[3][0].Limb = uint64(12345)
